@@ -467,13 +467,93 @@ struct St {
 fn replay(cap: usize, mode: Mode, short: bool, hist: &[Ev]) -> (World, Vec<(&'static str, String, String)>) {
     let mut w = World::new(cap, mode, short);
     let mut bad = Vec::new();
+    watchdog::enter(cap, mode, short, hist);
     for e in hist {
         let r = w.apply(*e);
         if bad.is_empty() {
             bad = r;
         }
     }
+    watchdog::leave();
     (w, bad)
+}
+
+/// A step of the code under test that never returns (an append spinning in a retry loop, a drain
+/// pass that never ends) would hang the search. Every replay announces itself here; a monitor
+/// thread reports a replay that has been running for 30 s (a replay is at most 13 operations of
+/// microseconds each) - as a violation where the property covers the operation that hangs, as
+/// a machinery failure (exit 2, no verdict) otherwise - and ends the process.
+mod watchdog {
+    use super::{Ev, Mode};
+    use std::sync::{Arc, Mutex, OnceLock};
+    use std::time::Instant;
+
+    type Slot = Arc<Mutex<Option<(Instant, usize, Mode, bool, Vec<Ev>)>>>;
+    static SLOTS: OnceLock<Mutex<Vec<Slot>>> = OnceLock::new();
+    thread_local! {
+        static MINE: Slot = {
+            let s: Slot = Default::default();
+            SLOTS.get_or_init(Default::default).lock().unwrap().push(s.clone());
+            s
+        };
+    }
+    pub fn enter(cap: usize, mode: Mode, short: bool, hist: &[Ev]) {
+        MINE.with(|m| *m.lock().unwrap() = Some((Instant::now(), cap, mode, short, hist.to_vec())));
+    }
+    pub fn leave() {
+        MINE.with(|m| *m.lock().unwrap() = None);
+    }
+    /// the replay that has been running longest, if longer than `secs`
+    pub fn stuck(secs: u64) -> Option<(usize, Mode, bool, Vec<Ev>)> {
+        let slots = SLOTS.get_or_init(Default::default).lock().unwrap();
+        for s in slots.iter() {
+            if let Some((t, cap, mode, short, hist)) = s.lock().unwrap().as_ref() {
+                if t.elapsed().as_secs() >= secs {
+                    return Some((*cap, *mode, *short, hist.clone()));
+                }
+            }
+        }
+        None
+    }
+}
+
+/// Does `prop` say anything about the operation `ev` never returning?
+fn covers_hang(prop: &str, ev: Ev) -> bool {
+    match ev {
+        // an append that does not return
+        Ev::Push | Ev::Fill => prop == "C09",
+        // the writer side: entries never reach the stream (C01), a flush request never
+        // completes (C04), the shutdown never ends (C05); a refilling pass also appends (C09)
+        Ev::DrainPassedRefilling => true,
+        Ev::Request | Ev::DrainFar | Ev::DrainPassed | Ev::Call(_) => prop != "C09",
+        Ev::ShutDown(_) => prop != "C09",
+    }
+}
+
+fn start_watchdog(prop: &'static str) {
+    std::thread::spawn(move || loop {
+        std::thread::sleep(std::time::Duration::from_secs(2));
+        if let Some((cap, mode, short, hist)) = watchdog::stuck(30) {
+            // which operation hangs: replay the history with a per-operation announcement
+            let names: Vec<String> = hist.iter().map(|e| format!("{e:?}")).collect();
+            let last = *hist.last().expect("a replay of the empty history does nothing");
+            // (the hanging operation is the last one: every proper prefix was replayed before)
+            if covers_hang(prop, last) {
+                let mut rep = Report::from_args(prop, "model_checking");
+                rep.set("exhaustive", false);
+                rep.set("aborted_by_watchdog", true);
+                rep.violations.add(
+                    format!("operation-does-not-return:{}", format!("{last:?}").split('(').next().unwrap_or("")),
+                    format!("capacity {cap}, stream answers {mode:?}{}: after {:?} the operation {last:?} on the real queue / writer has not returned for 30 s (the search was abandoned)", if short { ", shutdown_timeout 999 ms" } else { "" }, &names[..names.len() - 1]),
+                    json!({"capacity": cap, "stream_answers": format!("{mode:?}"), "shutdown_timeout_999ms": short, "history": names, "hangs_in": format!("{last:?}")}),
+                );
+                rep.finish();
+            } else {
+                println!("MACHINERY-FAILURE: property={prop} the operation {last:?} (after {:?}, capacity {cap}, {mode:?}) has not returned for 30 s; {prop} says nothing about it, and the search cannot continue", &names[..names.len() - 1]);
+                std::process::exit(2);
+            }
+        }
+    });
 }
 
 /// A subscriber that accepts everything and records nothing.
@@ -619,6 +699,9 @@ pub fn run(prop: &'static str) {
     }
     let depth: usize = rep.tier.pick(11, 13);
     let max_reqs = 2;
+    if rep.replay.is_none() {
+        start_watchdog(prop);
+    }
     let caps: Vec<usize> = vec![1, 2, 3, 33, 40];
     let modes = [Mode::AllOk, Mode::AllIo, Mode::AllValidation, Mode::Mixed];
     let mut jobs: Vec<(usize, Mode, bool)> = caps.iter().flat_map(|c| modes.iter().map(move |m| (*c, *m, false))).collect();
